@@ -548,17 +548,17 @@ Section ElLevel.
         { unfold get_seg, upd_seg. cbn. apply nth_optN_updN_same. unfold get_seg in G. now apply nth_optN_lt in G. }
         rewrite G1. eexists _, b, _. rewrite D. split; [reflexivity|]. split; [reflexivity|].
         pose proof (Forall_nth_optN _ _ _ _ Hg G) as F. unfold gfits in F. rewrite D in F. auto. }
-    destruct Hd as (el1 & b & size & -> & He & Hb & Hsz & Hp). cbn [bind]. rewrite Hpos, He.
+    destruct Hd as (el1 & b & size & -> & He & Hb & Hsz & Hp). cbn [bind]. rewrite Hpos, He. unfold note_at.
     pose proof (Forall_nth_optN _ _ _ _ Hp Hpos) as (namesz & descsz & R1 & R2 & Hfit & Hn & Hdz).
     destruct (rd_word_total (el_enc el) b (pos + 8) 4) as (ty & ->); [cbn; lia|]. cbn [bind].
     rewrite R1, R2. cbn [bind].
     assert (P1 : namesz <= pad4_32 namesz).
     { unfold pad4_32, wrap32, wrap. rewrite N.mod_small by lia. lia. }
-    destruct ((namesz <? 1) || _ || _) eqn:Eg; [eauto|].
+    destruct ((namesz <? 1) || _ || _) eqn:Eg; [cbn [bind]; eauto|].
     apply orb_false_iff in Eg. destruct Eg as [Eg _]. apply orb_false_iff in Eg. destruct Eg as [Eg _].
     apply N.ltb_ge in Eg.
     destruct (rd_total b (pos + 12) (namesz - 1)) as (nm & -> & _); [lia|]. cbn [bind].
-    destruct (descsz =? 0); [eauto|].
+    destruct (descsz =? 0); [cbn [bind]; eauto|].
     assert (P2 : descsz <= pad4_32 descsz).
     { unfold pad4_32, wrap32, wrap. rewrite N.mod_small by lia. lia. }
     destruct (rd_total b (pos + 12 + pad4_32 namesz) descsz) as (ds & -> & _); [lia|]. cbn [bind]. eauto.
